@@ -115,7 +115,7 @@ def build_model(rng, n_grid=60, k=None, zmax=30, gases=None, opts=None, **fixed_
     else:
         okw = opts._asdict()
     m = AdvancedModel.get(dev, tg, bg, opts)
-    return m, {"device": dkw, "targets": tdesc, "gases": bdesc, "options": {k: v for k, v in okw.items() if isinstance(v, bool)}}
+    return m, {"device": dkw, "targets": tdesc, "gases": bdesc, "options": {k: v for k, v in okw.items() if isinstance(v, (bool, int, float))}}
 
 
 def rebuild(desc, opts_override=None):
@@ -202,7 +202,7 @@ def resonant_model(rng, **fixed_opts):
     pos = int(rng.integers(0, len(tdesc)))
     tdesc = tdesc[1:pos + 1] + tdesc[:1] + tdesc[pos + 1:]
     bg, bdesc = gens.make_gases(rng)
-    desc = {"device": kw, "targets": tdesc, "gases": bdesc, "options": {k: v for k, v in okw.items() if isinstance(v, bool)}}
+    desc = {"device": kw, "targets": tdesc, "gases": bdesc, "options": {k: v for k, v in okw.items() if isinstance(v, (bool, int, float))}}
     m = rebuild(desc)
     if okw["RECOMPUTE_CROSS_SECTIONS"]:
         y = _assemble(m)
